@@ -718,7 +718,13 @@ class Scheduler:
             logger.info("Processing %d dependent jobs", len(dependents))
             for dependency in dependents:
                 logger.debug("Checking dependency %s", dependency)
-                self.loop.call_soon(dependency.check)
+                loop = getattr(dependency, "loop", self.loop)
+                if loop is self.loop:
+                    self.loop.call_soon(dependency.check)
+                else:
+                    # The dependent belongs to another experiment (another
+                    # event loop, another thread): wake that loop up
+                    loop.call_soon_threadsafe(dependency.check)
 
         return job.state
 
